@@ -140,7 +140,7 @@ def decodeChoice : Json → Except String Choice
   | .str "panic" => pure .panic
   | _ => throw "bad choice"
 
-def program : List Stmt := KG.Gen.C05.serveHTTP.map Stmt.ofString
+def program : List Stmt := dispatcherProgram
 
 def doServe (a : Json) : Except String Json := do
   let cs ← (← J.getArr a "choices").toList.mapM decodeChoice
